@@ -171,6 +171,9 @@ def eval_meta(ctx, case):
     if d is None and tr1['build_error'] is None and tr1['error'] is None and len(tr1['time']) >= 3:
         # a snapshot of both systems at the same physical instant between two recorded ones (default output units)
         d = snapshots_differ(ctx, tr1, b1, tr2, b2)
+        if d is None:
+            # ... and the exported files of both systems (default output units)
+            d = exports_differ(ctx, b1, b2)
     if d is None:
         return
     if (tr1['build_error'] is None) != (tr2['build_error'] is None):
@@ -215,6 +218,50 @@ def snapshots_differ(ctx, tr1, b1, tr2, b2):
                 if not (abs(x - y) <= 1e-6 * max(sc, 1e-9)):
                     return f'snapshot at t = {t} s: {col!r} of row {k} is {x} vs {y}'
     ctx.count('snapshot pairs compared')
+    return None
+
+
+def exports_differ(ctx, b1, b2):
+    import csv
+    import os
+    import tempfile
+    tables = []
+    for b in (b1, b2):
+        with tempfile.TemporaryDirectory() as d:
+            try:
+                b.pt.export_time_variables(folder_path=d)
+            except Exception as ex:  # noqa: BLE001
+                tables.append(('err', type(ex).__name__))
+                continue
+            files = {}
+            for fn in sorted(os.listdir(d)):
+                with open(os.path.join(d, fn), newline='') as fh:
+                    files[fn] = list(csv.reader(fh))
+            tables.append(('ok', files))
+    if tables[0][0] != tables[1][0]:
+        return f'export succeeds in one unit system only: {tables[0][0]} / {tables[1][0]}'
+    if tables[0][0] == 'err':
+        return None
+    f1, f2 = tables[0][1], tables[1][1]
+    if sorted(f1) != sorted(f2):
+        return 'exports produce different files'
+    for fn in f1:
+        r1, r2 = f1[fn], f2[fn]
+        if r1[0] != r2[0] or len(r1) != len(r2):
+            return f'exported file {fn}: different header or number of rows'
+        for c in range(len(r1[0])):
+            try:
+                x1 = [float(r[c]) for r in r1[1:]]
+                x2 = [float(r[c]) for r in r2[1:]]
+            except ValueError:
+                continue
+            sc = max([abs(v) for v in x1 if v == v] + [1e-9])
+            for k, (x, y) in enumerate(zip(x1, x2)):
+                if x != x and y != y:
+                    continue
+                if not abs(x - y) <= 1e-6 * sc:
+                    return f'exported file {fn}: column {r1[0][c]!r} row {k} is {x} vs {y}'
+    ctx.count('export pairs compared')
     return None
 
 
